@@ -253,6 +253,30 @@ def check_schema(c, it, tr, decisions, src, expected_events, label, method="visi
     # its event twice
     twice = sorted({x.id for o in outs for x in ast.walk(o) if isinstance(x, ast.Name) and x.id.startswith("__VV")})
     c.prove(f"{label}/no-sub-term-visited-twice", not twice, note=str(twice), only=["C02", "C06", "C01"])
+    # C02 / C06: every expression and statement of THIS function is visited (a walrus, a yield, a binding inside it is this function's):
+    # the holes that do not stand in the body of a nested function / lambda / class must come out as visited markers
+    def _own_holes(n, out_):
+        if isinstance(n, ast.Name) and (n.id.startswith("__E") or n.id.startswith("__S")) and n.id[3:].isdigit():
+            out_.add(n.id)
+        if isinstance(n, (ast.FunctionDef, ast.AsyncFunctionDef, ast.Lambda)):
+            a_ = n.args
+            for d_ in [*a_.defaults, *[k_ for k_ in a_.kw_defaults if k_ is not None], *getattr(n, "decorator_list", [])]:
+                _own_holes(d_, out_)
+            return
+        if isinstance(n, ast.ClassDef):
+            for d_ in [*n.bases, *[k_.value for k_ in n.keywords], *n.decorator_list]:
+                _own_holes(d_, out_)
+            return
+        if isinstance(n, (ast.ListComp, ast.SetComp, ast.DictComp, ast.GeneratorExp)):
+            pass  # (comprehensions are evaluated in place: their holes are this function's as far as the transformer is concerned)
+        for ch in ast.iter_child_nodes(n):
+            _own_holes(ch, out_)
+
+    own = set()
+    _own_holes(original, own)
+    flat_out = "".join(PE.dump(o) for o in outs)
+    missing = sorted(h for h in own if ("__V" + h[2:]) not in flat_out and ("__VV" + h[2:]) not in flat_out)
+    c.prove(f"{label}/every-expression-of-this-function-is-visited", not missing, note=f"not visited: {missing}", only=["C02", "C06", "C09"])
     # C02 / C06: events
     evs = PE.events(outs)
     got = [e.sig() for e in evs]
@@ -460,7 +484,7 @@ AUG_SCHEMAS = [
 ]
 
 
-@unit("visit_AugAssign", ["C01", "C02", "C04"], VISITORS, replay=_replay_native("visit_AugAssign"))
+@unit("visit_AugAssign", ["C01", "C02", "C04", "C09"], VISITORS, replay=_replay_native("visit_AugAssign"))
 def u_visit_augassign(c):
     """x += E: the augmented statement is kept (operand visited) and followed by x = interact('x', ..., x)."""
     it, tr, dec = setup(c)
@@ -484,6 +508,11 @@ def u_visit_augassign(c):
     c.prove(f"{label}/operand-visited", "__VE1" in "".join(PE.dump(o) for o in outs), only=["C02", "C06"])
     if "__E2" in src:
         c.prove(f"{label}/index-visited", "__VE2" in "".join(PE.dump(o) for o in outs), only=["C02", "C06"])
+    # the temporaries that hold the object, the index and the value are forgotten at the end of the statement (they would keep the objects
+    # alive until the function returns: a generator held there is not finalised when the program drops it)
+    made = {x.id for o in outs for x in ast.walk(o) if isinstance(x, ast.Name) and isinstance(x.ctx, ast.Store) and x.id.startswith("_ptera__")}
+    gone = {x.id for o in outs if isinstance(o, ast.Delete) for x in o.targets if isinstance(x, ast.Name)}
+    c.prove(f"{label}/temporaries-are-forgotten-after-the-statement", made <= gone, note=f"bound {sorted(made)}, deleted {sorted(gone)}", only=["C09", "C01", "C02"])
     if label == "name" and dec.get(("x", None)):
         c.prove("name/event-follows-the-augmented-statement", len(outs) == 2 and isinstance(outs[0], ast.AugAssign) and isinstance(outs[1], ast.Assign), only=["C02", "C04"])
 
@@ -684,6 +713,7 @@ PASS_SCHEMAS = [
     ("lambda-default-with-walrus", "k = lambda q=(m := __E1): __E2", [("m", None, None, "__VE1", True), ("k", None, None, "*", True)]),
     ("nested-def-default-with-walrus", "def g(z=(w := __E1)):\n    return __E2", [("w", None, None, "__VE1", True)]),
     ("nested-async-def", "async def g(a):\n    x = __E1\n    return x", []),
+    ("nested-def-decorated-with-keyword-default", "@__E3\ndef g(a, *, k=__E1):\n    return __E2", []),
     # the names a match pattern binds (capture, star, rest-of-mapping and `as` patterns) are bound when the pattern succeeds, before the guard
     # is evaluated: one event each at the start of the case block, in the order of the pattern
     ("match-sequence-and-mapping", "match __E1:\n    case [a, *rest] if __E2:\n        __S1\n    case {'k': v, **others}:\n        __S2\n    case _:\n        __S3",
@@ -1010,7 +1040,7 @@ def u_python_scoping(c):
         if kind == "external" and nm not in fn.__code__.co_names:
             continue  # a name that only stands in the annotation of a local: never evaluated, the code object does not mention it
         c.prove(f"{label}/provenance-agrees-with-python:{kind}", scoping.get(nm) == kind, note=f"{nm}: ptera={scoping.get(nm)} python={kind}")
-    c.prove(f"{label}/only-names-of-the-function's-own-scope", set(scoping) <= {s_.get_name() for s_ in fsym.get_symbols()}, note=str(sorted(scoping)))
+    c.prove(f"{label}/only-names-of-the-function's-own-scope", set(scoping) <= {s_.get_name() for s_ in fsym.get_symbols()}, note=str(sorted(map(str, scoping))))
     for nm, kind in expect.items():
         c.prove(f"{label}/spec-self-check", any(s_.get_name() == nm for s_ in fsym.get_symbols()) and scoping.get(nm) == kind, note=f"{nm}: {scoping.get(nm)} expected {kind}")
 
